@@ -181,6 +181,8 @@ func run(cfg lib.Cfg) error {
 		base("growth-log-b2c2", "log", 2, 2, 5, 21, ts.Steps(1, 4)),
 		base("reorg-log-b2c1", "log", 2, 1, 4, 22, cat(ts.Steps(1, 2), []ts.Act{{Do: "reorg", Fork: 3, Len: 3}}, ts.Steps(1, 3))),
 		base("reorg-tx-b3c2", "tx", 3, 2, 6, 23, cat(ts.Steps(1, 2), []ts.Act{{Do: "reorg", Fork: 2, Len: 6}}, ts.Steps(1, 4))),
+		// the position written with batch 4 is unwound after a restart with batch 2
+		base("rebatch-log-b4c2-to-b2c1", "log", 4, 2, 5, 28, cat(ts.Steps(1, 1), []ts.Act{{Do: "reconfig", K: 2, Len: 1}, {Do: "reorg", Fork: 3, Len: 4}}, ts.Steps(1, 2))),
 	}
 	if cfg.Thorough() {
 		bases = append(bases,
@@ -250,7 +252,7 @@ func run(cfg lib.Cfg) error {
 		}
 	}
 	// random multi-fault sequences on random growth / reorg histories
-	n := 40
+	n := 24
 	if cfg.Thorough() {
 		n = 1200
 	}
@@ -275,7 +277,12 @@ func run(cfg lib.Cfg) error {
 					h = int(f) - 1 + l
 				}
 			case 2:
-				acts = append(acts, ts.Act{Do: "restart"})
+				if r.Bool() {
+					acts = append(acts, ts.Act{Do: "restart"})
+				} else {
+					batch = r.Range(1, 6)
+					acts = append(acts, ts.Act{Do: "reconfig", K: batch, Len: r.Range(1, 4)})
+				}
 			}
 			switch r.Intn(3) {
 			case 0:
@@ -300,7 +307,7 @@ func run(cfg lib.Cfg) error {
 		for _, a := range sc.Acts {
 			switch a.Do {
 			case "fault", "rpcfail", "rpccrash", "restart":
-			default:
+			default: // a reconfiguration stays in the reference history
 				ref.Acts = append(ref.Acts, a)
 			}
 		}
